@@ -130,6 +130,9 @@ func (s *Stats) Case(trace []string, nontrivial bool, classes ...string) {
 		return // shrinking replays are not counted
 	}
 	s.Evaluations++
+	if s.Evaluations%5000 == 0 && os.Getenv("VERIF_FUZZ") != "" {
+		defer func() { go flushStats() }() // fuzz workers may be killed without running TestMain's epilogue
+	}
 	for _, c := range classes {
 		s.Classes[c]++
 	}
@@ -208,7 +211,11 @@ func flushStats() {
 		}
 		s.mu.Unlock()
 		b, _ := json.Marshal(o)
-		_ = os.WriteFile(filepath.Join(outDir, fmt.Sprintf("stats-%s-%s.json", s.Name, shardID)), b, 0o644)
+		name := fmt.Sprintf("stats-%s-%s.json", s.Name, shardID)
+		if os.Getenv("VERIF_FUZZ") != "" {
+			name = fmt.Sprintf("stats-%s-%s-%d.json", s.Name, shardID, os.Getpid())
+		}
+		_ = os.WriteFile(filepath.Join(outDir, name), b, 0o644)
 	}
 }
 
@@ -242,6 +249,9 @@ func Fail(t TB, st *Stats, key, msg string, trace []string, conf any) {
 	if outDir != "" {
 		failMu.Lock()
 		p := filepath.Join(outDir, fmt.Sprintf("fail-%s-%s.json", st.Name, shardID))
+		if os.Getenv("VERIF_FUZZ") != "" {
+			p = filepath.Join(outDir, fmt.Sprintf("fail-%s-%s-%d.json", st.Name, shardID, os.Getpid()))
+		}
 		write := true
 		if old, err := os.ReadFile(p); err == nil {
 			var o failRec
